@@ -39,7 +39,7 @@ class Job:
                  cbmc=(), timeout=300, mem_gb=8, kind="proof", tiers=("quick", "thorough"),
                  defines=(), fuc=(), assumes=(), solver=None, rec=(), no_canary=False,
                  restrict_fp=(), safety=None, note="", r1=None, r2=None, nondet_static=False,
-                 expect_unwind_fail=False, drop_checks=(), replace_calls=(), native=None, read_hooks=(), rewrites=()):
+                 expect_unwind_fail=False, drop_checks=(), replace_calls=(), native=None, read_hooks=(), rewrites=(), unknown_ok=()):
         self.name = name            # job id, unique in the unit
         self.tu = tu                # file under contracts/
         self.harness = harness      # entry function
@@ -68,6 +68,7 @@ class Job:
         self.replace_calls = list(replace_calls)   # ["f:g"] stubs WITH bodies (goto-instrument --replace-calls)
         self.native = native
         self.read_hooks = list(read_hooks)   # [(field, hook_fn)]: rule R4, see preprocess()
+        self.unknown_ok = [re.compile(x) for x in unknown_ok]   # obligations CBMC leaves UNKNOWN behind a benign-listed failed check
         self.rewrites = list(rewrites)       # [(from, to, expected_count)]: job-specific must-fire rewrites (a bounded stand-in must say so)
 
 
@@ -463,6 +464,9 @@ def run_unit(pid, jobs, tier, seed=0, only=None):
                 (res.obls if job.kind == "proof" else res.bounded).append(o)
                 continue
             if o.status not in ("FAILURE",):
+                if o.status == "UNKNOWN" and any(rx.search(o.key()) for rx in job.unknown_ok):
+                    res.benign_hits.append((o, "left UNKNOWN by CBMC: reachable only past a benign-listed failed check (see job note); not counted as discharged"))
+                    continue
                 res.undecided.append((job.name, "obligation %s has status %s" % (o.prop, o.status)))
                 continue
             k = o.key()
